@@ -1435,6 +1435,15 @@ func (r *Run) Execute() {
 	r.trace.MidGateAfter = r.k.MidGate
 	r.trace.ReadBack = r.p.Images && path != ""
 	r.trace.plan = r.plan
+	if r.p.DeleteBias {
+		r.trace.OnPersistSegment = func(ids []string) {
+			actor := r.s.ActorName()
+			r.mu.Lock()
+			r.merging[actor] = append(append([]string(nil), r.merging[actor]...), ids...)
+			r.mu.Unlock()
+			r.probe("persist-window-opened")
+		}
+	}
 	if path != "" && (r.p.Faults || r.p.DirInv) {
 		r.osHook = NewOSHook(r.root)
 		r.osHook.record = false
